@@ -427,6 +427,12 @@ func (r *rateLimiter) UpstreamConditionHandler(cluster *proxyv1alpha1.UpstreamCl
 	}
 
 	upstreamCondition = updateUpstreamStateCondition(upstreamCondition, cluster)
+	// The allocated sums are derived from the instances' conditions. A state
+	// condition that was loaded from the API can be older or newer than they are
+	// (each condition is persisted on its own, and the previous holder of the
+	// shard may have crashed in between), so they are taken from the conditions
+	// on record here, as after every report.
+	upstreamCondition = r.calculateUpstreamCondition(limitStore, upstreamCondition)
 
 	err = limitStore.Save(cluster.Name, upstreamCondition)
 	if err != nil {
